@@ -9,6 +9,7 @@ import (
 	"sort"
 	"strings"
 	"sync"
+	"sync/atomic"
 	"testing"
 
 	"src.elv.sh/pkg/md"
@@ -27,6 +28,11 @@ var c36AlphaA = []string{"a", "b", " ", "\n", "\n\n", "*", "_", "`", "# ", "> ",
 var c36AlphaB = []string{"a", " ", "\n", "-", "+", "#", "~~~", "1", ".", ")", "(", "!", "[", "](",
 	"<", ">", "\"", "&#32;", "*", "_", "\\", "`"}
 
+// Alphabet C: inline raw HTML of every kind that could also open an HTML block
+// (<a>, </a>, <!a>, <!--, <?), next to the whitespace forms the formatter
+// itself writes (&NewLine;, &#32;), explored one token deeper.
+var c36AlphaC = []string{"a", "<a>", " ", "\n", "&NewLine;", "&#32;", "<", ">", "!", "/", "?", "-", "\\"}
+
 var c36Widths = []int{0, 1, 5, 20}
 
 // c36Scan is a Codec that looks at the parse of a document: which block and
@@ -37,27 +43,35 @@ var c36Widths = []int{0, 1, 5, 20}
 type c36Scan struct {
 	blocks, inlines uint32
 	nested, consec  bool
+	wantSig         bool // record sig (only needed to attribute a violation)
 	sig             []string
 }
 
 func (s *c36Scan) Do(op md.Op) {
 	s.blocks |= 1 << uint(op.Type)
-	b := op.Type.String()
-	if op.Number != 0 {
+	b := ""
+	if s.wantSig {
+		b = op.Type.String()
+	}
+	if op.Number != 0 && s.wantSig {
 		b += fmt.Sprintf(" Number=%d", op.Number)
 	}
-	if op.Info != "" {
+	if op.Info != "" && s.wantSig {
 		b += fmt.Sprintf(" Info=%q", op.Info)
 	}
-	if len(op.Lines) > 0 {
+	if len(op.Lines) > 0 && s.wantSig {
 		b += fmt.Sprintf(" Lines=%q", op.Lines)
 	}
-	s.sig = append(s.sig, b)
+	if s.wantSig {
+		s.sig = append(s.sig, b)
+	}
 	depth := 0
 	prevEnd := false
 	for _, in := range op.Content {
 		s.inlines |= 1 << uint(in.Type)
-		s.sig = append(s.sig, fmt.Sprintf(" %s %q %q %q", in.Type, in.Text, in.Dest, in.Alt))
+		if s.wantSig {
+			s.sig = append(s.sig, fmt.Sprintf(" %s %q %q %q", in.Type, in.Text, in.Dest, in.Alt))
+		}
 		switch in.Type {
 		case md.OpEmphasisStart, md.OpStrongEmphasisStart:
 			depth++
@@ -74,15 +88,16 @@ func (s *c36Scan) Do(op md.Op) {
 	}
 }
 
-func c36ScanOf(src string) *c36Scan {
-	s := &c36Scan{}
+func c36ScanOf(src string, wantSig bool) *c36Scan {
+	s := &c36Scan{wantSig: wantSig}
 	md.Render(src, s)
 	return s
 }
 
 // c36Attr names where the parse of the formatted text first departs from the
 // parse of the original: "<what the original has>-><what the output has>".
-func c36Attr(orig, out *c36Scan) string {
+func c36Attr(origSrc, outSrc string) string {
+	orig, out := c36ScanOf(origSrc, true), c36ScanOf(outSrc, true)
 	kind := func(sig []string, i int) string {
 		if i >= len(sig) {
 			return "end"
@@ -159,6 +174,8 @@ type c36Finding struct {
 type c36Findings struct {
 	mu sync.Mutex
 	m  map[string]c36Finding
+	// documents not judged at all / not judged for line width
+	unsupported, noWidth atomic.Int64
 }
 
 // add keeps, per key, the shortest (then lexicographically least) document, so
@@ -203,7 +220,7 @@ func c36OutFlags(src, out string) string {
 
 // c36One checks one document at all widths; returns the coverage class.
 func c36One(c *vk.Ctx, l *vk.Local, fs *c36Findings, src string) string {
-	orig := c36ScanOf(src)
+	orig := c36ScanOf(src, false)
 	documentedUnsupported := orig.nested || orig.consec
 	noWidthJudgement := orig.blocks&(1<<uint(md.OpHeading)|1<<uint(md.OpCodeBlock)|1<<uint(md.OpHTMLBlock)) != 0
 	htmlOrig := ""
@@ -225,7 +242,7 @@ func c36One(c *vk.Ctx, l *vk.Local, fs *c36Findings, src string) string {
 			}
 		}
 		if documentedUnsupported {
-			l.Classes["skip:documented-unsupported"]++
+			fs.unsupported.Add(1)
 			return class
 		}
 		if w == 0 {
@@ -234,11 +251,14 @@ func c36One(c *vk.Ctx, l *vk.Local, fs *c36Findings, src string) string {
 		htmlOut := c36HTML(out)
 		if w == 0 {
 			if htmlOut != htmlOrig {
-				fs.add("html-changed:"+c36Attr(orig, c36ScanOf(out)), src, fmt.Sprintf("document %q is formatted as %q, which renders as %q instead of %q", src, out, htmlOut, htmlOrig))
+				fs.add("html-changed:"+c36Attr(src, out), src, fmt.Sprintf("document %q is formatted as %q, which renders as %q instead of %q", src, out, htmlOut, htmlOrig))
+				return class // the reflowed outputs of a mis-formatted document are not judged
 			}
+		} else if htmlOut == htmlOrig {
+			// identical, so also identical modulo whitespace
 		} else if a, b := c36ModWS(htmlOrig), c36ModWS(htmlOut); a != b {
-			// only judged on its own if the plain formatter is right for this document
-			fs.add("reflow-html-changed:"+c36Attr(orig, c36ScanOf(out)), src, fmt.Sprintf("document %q is reflowed to width %d as %q, which renders (modulo paragraph whitespace) as %q instead of %q", src, w, out, b, a))
+			fs.add("reflow-html-changed:"+c36Attr(src, out), src, fmt.Sprintf("document %q is reflowed to width %d as %q, which renders (modulo paragraph whitespace) as %q instead of %q", src, w, out, b, a))
+			continue // a wrong output is not judged further
 		}
 		var again string
 		if p := vk.Try(func() { again = md.RenderString(out, &md.FmtCodec{}) }); p != "" {
@@ -246,11 +266,17 @@ func c36One(c *vk.Ctx, l *vk.Local, fs *c36Findings, src string) string {
 			return "panic"
 		}
 		if again != out {
-			key := "fmt-not-idempotent"
-			if w > 0 {
-				key = "reflow-not-stable-under-fmt"
+			if ha := c36HTML(again); ha != htmlOut {
+				// The formatter's own output is a document it does not preserve:
+				// report that (the more basic failure) for the output as document.
+				fs.add("html-changed:"+c36Attr(out, again), out, fmt.Sprintf("document %q (the width-%d output for %q) is formatted as %q, which renders as %q instead of %q", out, w, src, again, ha, htmlOut))
+			} else {
+				key := "fmt-not-idempotent"
+				if w > 0 {
+					key = "reflow-not-stable-under-fmt"
+				}
+				fs.add(key+":"+c36Attr(out, again), src, fmt.Sprintf("document %q is formatted with width %d as %q; formatting that again gives %q", src, w, out, again))
 			}
-			fs.add(key+":"+c36Attr(c36ScanOf(out), c36ScanOf(again)), src, fmt.Sprintf("document %q is formatted with width %d as %q; formatting that again gives %q", src, w, out, again))
 		}
 		if w > 0 && !noWidthJudgement {
 			if line, bad := c36TooWide(out, w); bad {
@@ -259,7 +285,7 @@ func c36One(c *vk.Ctx, l *vk.Local, fs *c36Findings, src string) string {
 		}
 	}
 	if noWidthJudgement {
-		l.Classes["skip:width-not-judged(heading/code/html block)"]++
+		fs.noWidth.Add(1)
 	}
 	return class
 }
@@ -273,7 +299,8 @@ func TestVerifC36(t *testing.T) {
 
 		na := vk.Pick(c, 4, 5)
 		nb := vk.Pick(c, 4, 5)
-		c.Rule(fmt.Sprintf("every document of <=%d tokens over the 20-token alphabet A %q and every document of <=%d tokens over the 22-token alphabet B %q, length-lexicographic, each formatted with widths %v; class = (set of block op types, set of inline op types, documented-unsupported flags, which escape forms the width-0 output uses)", na, c36AlphaA, nb, c36AlphaB, c36Widths))
+		nc := vk.Pick(c, 5, 6)
+		c.Rule(fmt.Sprintf("every document of <=%d tokens over the 20-token alphabet A %q every document of <=%d tokens over the 22-token alphabet B %q and every document of <=%d tokens over the 13-token alphabet C %q, length-lexicographic, each formatted with widths %v and each output formatted once more; class = (set of block op types, set of inline op types, documented-unsupported flags, which escape forms the width-0 output uses)", na, c36AlphaA, nb, c36AlphaB, nc, c36AlphaC, c36Widths))
 		c.Assume("'renders to the same HTML' is observed with the package's own parser and HTMLCodec (their agreement with CommonMark is C35's subject), with md.UnescapeHTML = html.UnescapeString as in cmd/elvmdfmt",
 			"documents with nested or consecutive (strong) emphasis - decided by the harness from the parse of the document, as documented on FmtUnsupported - are not judged",
 			"line width is judged only for documents without headings, code blocks and HTML blocks, and only for lines that have a space in their content and no '<', link or code span, as in the upstream fuzz property",
@@ -290,6 +317,9 @@ func TestVerifC36(t *testing.T) {
 		}
 		run(c36AlphaA, na)
 		run(c36AlphaB, nb)
+		run(c36AlphaC, nc)
+		c.Set("not_judged_documented_unsupported", fs.unsupported.Load())
+		c.Set("width_not_judged_heading_code_html_block", fs.noWidth.Load())
 		keys := make([]string, 0, len(fs.m))
 		for k := range fs.m {
 			keys = append(keys, k)
